@@ -12,9 +12,9 @@ import json, os
 import vcommon as V
 
 META = dict(
-    text="Lean 4 theorems (Props/C06.lean). (1) table_is_documented: the operator table regenerated from InitInfixOps induces exactly the documented order, partition and associativity of levels (decide over the whole table, numbers not compared). (2) pratt_iff_stratified / expand_iff_statements: for EVERY token list of the fragment (any length, selectors nested to any depth, malformed lists included) the Pratt loop of pratt.go (model, regenerated table) returns a tree and rest iff the textbook stratified recursive-descent parser over the documented levels returns them, and InfixExpandArray returns a statement list iff it is the list of stratified statements (fuel-free form: 'returns with enough fuel'; induction on the token list, the loop cut at each level's binding power, stop property of Expression; the table/grammar link corr_generated is re-established by decide on every run with the binding powers read off the table). (3) lex_spacing: for EVERY token sequence (names, dotted paths, decimal and float numerals, the operators written with operator characters, brackets, comma, semicolon) and EVERY legal spacing of it (Spec/Spacing.lean: a blank is needed only between two words, between characters that would spell another operator or open a comment, before a signed numeral that follows a word or closing bracket, and after a binary minus that follows a blank and precedes a digit) the lexer model reads exactly that token sequence; the four exclusions are shown necessary by counterexample theorems (`a -1` reads as `a`, `-1`: the sign look-back, known finding). (4) infix_text_tokens / text_means_stratified: the text of a block in any legal spacing, nested [ ], ( ), { } to any depth, goes through the lexer and parser models to a token array that depends on the source tree alone, and its expansion is the stratified statement list. (5) Interference histories: the expansion and the value of a block in interpreter A are functions of A and the block alone - htree/hval ops create and use other interpreters of every constructor kind (NewZlisp, NewZlispSandbox, NewZlispWithFuncs with a small and with a shifted table, Duplicate, Clone) before and after A, then require the spec's tree made of A's OWN symbols (symbol numbers compared through an overlay accessor), value/effects equal to those of the prefix form under the same history, and equal to the history-free run in a process of its own, for every operator family incl. indexing, slicing, selectors and assignment forms; table theorems package_level_state_allow_list / no_interpreter_state_in_package_level_handlers (regenerated list of every write to a package-level variable from pratt.go and the interpreter constructors: explicit allow-list, only constants and bare top-level functions stored). A unit test can only sample operator pairs and spacings and uses one interpreter kind at a time; the theorems cover all sequences and all legal spacings, and the exhaustive correspondence ties the models to the code.",
-    note="Trusted: Lean kernel; axioms propext/Classical.choice/Quot.sound; the extractor zyx (syntactic, cross-checked against the live env.infixOps each run); Model/Pratt.lean, Model/Lexer.lean, Model/Parser.lean, Model/InfixFront.lean are hand-written and tied to zygo/pratt.go, lexer.go, parser.go, comment.go by correspondence (differential testing: `lex`/`parse` channels of C13/C12 rune by rune, and here `expand`: exhaustive operator pairs/triples with spacing variants, every none/blank combination of the gaps of every operator pair through the lexer alone and end to end, random gap kinds, structured blocks, arbitrary token lists, the excluded adjacencies). Not proved: that the fuel the executable models use (fuelFor) always suffices — the unbounded theorems are about 'returns with enough fuel', expandBlock_eq_parseBlock says the two executable functions agree whenever both return, pratt_eq_stratified_partial (bounded, kernel-checked) and the correspondence check the fuel; PrattEqStratified for EVERY well-formed table (only the regenerated one is covered). Outside the fragment of the Pratt theorem (specification silent, model = implementation by correspondence only): if/else, for lowering, break/continue, ++/-- or a prefix-only operator directly followed by a tighter operator, the undotted symbol `.`. Outside lex_spacing: labels and slices written with a colon, string/char literals inside blocks (the lexer-level theorem LegalFrom has them), comments in gaps.",
-    technique="Lean 4 proof (Pratt loop = stratified grammar by induction on the token list under a table/grammar correspondence discharged by decide; lexer model reads every legal spacing as the token sequence, induction over the token list; parser model on the token queue, induction over the source tree; table facts by decide) + model/implementation correspondence through the real lexer, parser and expander",
+    text="Lean 4 theorems (Props/C06.lean). (1) table_is_documented: the operator table regenerated from InitInfixOps induces exactly the documented order, partition and associativity of levels (decide over the whole table, numbers not compared). (2) pratt_iff_stratified / expand_iff_statements: for EVERY token list of the fragment (any length, selectors nested to any depth, malformed lists included) the Pratt loop of pratt.go (model, regenerated table) returns a tree and rest iff the textbook stratified recursive-descent parser over the documented levels returns them, and InfixExpandArray returns a statement list iff it is the list of stratified statements (induction on the token list, the loop cut at each level's binding power, stop property of Expression; the table/grammar link corr_generated is re-established by decide on every run with the binding powers read off the table). Fuel adequacy is PROVED (Proofs/FuelSuffices.lean): fuelFor_suffices / fuelFor_never_exhausted / expandBlock_fuel_suffices - termination measure for the model of pratt.go (a loop round consumes a token, a selector recurses into strictly lighter parts, a label weighs 2 because splitColonTailSelectorSymbols makes it two tokens; fuelFor ts exceeds the weight), so with ANY fuel >= fuelFor ts the model returns what it returns with fuelFor ts and a `none` is an error return of pratt.go (e.g. a[1:2:3]), never a fuel shortage; stratified_fuelFor_suffices / parseBlock_fuel_suffices - the same for the specification, every grammar, every token list. Hence the CONCRETE-fuel statements: pratt_eq_stratified (for every table/grammar pair in correspondence Corr and every token list of the fragment, Pratt.Expression(0) exactly as the driver runs the model EQUALS Stratified.parse exactly as the driver runs the specification, `none` included), pratt_eq_stratified_generated, expandBlock_eq_parseBlock_concrete (expandBlock = parseBlock on every non-empty token list of the fragment), agree_of_fragment (the bounded theorem without its bounds), text_expandBlock_eq_parseBlock_concrete (from the text). The originally stated PrattEqStratified (fragment condition on top-level tokens only) is REFUTED by PrattEqStratified_counterexample (a[if b c]: the selector holds a cond form for pratt.go and is left as written by the grammar); its repair PrattEqStratifiedRepaired asks the fragment at every depth. (3) lex_spacing: for EVERY token sequence (names, dotted paths, decimal and float numerals, the operators written with operator characters, brackets, comma, semicolon) and EVERY legal spacing of it (Spec/Spacing.lean: a blank is needed only between two words, between characters that would spell another operator or open a comment, before a signed numeral that follows a word or closing bracket, and after a binary minus that follows a blank and precedes a digit) the lexer model reads exactly that token sequence; the four exclusions are shown necessary by counterexample theorems (`a -1` reads as `a`, `-1`: the sign look-back, known finding). (4) infix_text_tokens / text_means_stratified: the text of a block in any legal spacing, nested [ ], ( ), { } to any depth, goes through the lexer and parser models to a token array that depends on the source tree alone, and its expansion is the stratified statement list. (5) Interference histories: the expansion and the value of a block in interpreter A are functions of A and the block alone - htree/hval ops create and use other interpreters of every constructor kind (NewZlisp, NewZlispSandbox, NewZlispWithFuncs with a small and with a shifted table, Duplicate, Clone) before and after A, then require the spec's tree made of A's OWN symbols (symbol numbers compared through an overlay accessor), value/effects equal to those of the prefix form under the same history, and equal to the history-free run in a process of its own, for every operator family incl. indexing, slicing, selectors and assignment forms; table theorems package_level_state_allow_list / no_interpreter_state_in_package_level_handlers (regenerated list of every write to a package-level variable from pratt.go and the interpreter constructors: explicit allow-list, only constants and bare top-level functions stored). A unit test can only sample operator pairs and spacings and uses one interpreter kind at a time; the theorems cover all sequences and all legal spacings, and the exhaustive correspondence ties the models to the code.",
+    note="Trusted: Lean kernel; axioms propext/Classical.choice/Quot.sound; the extractor zyx (syntactic, cross-checked against the live env.infixOps each run); Model/Pratt.lean, Model/Lexer.lean, Model/Parser.lean, Model/InfixFront.lean are hand-written and tied to zygo/pratt.go, lexer.go, parser.go, comment.go by correspondence (differential testing: `lex`/`parse` channels of C13/C12 rune by rune, and here `expand`: exhaustive operator pairs/triples with spacing variants, every none/blank combination of the gaps of every operator pair through the lexer alone and end to end, random gap kinds, structured blocks, arbitrary token lists, the excluded adjacencies). Not proved: that wellFormedB T implies the table/grammar correspondence Corr T (grammarOf T) (bpsOf …) for EVERY table — pratt_eq_stratified takes Corr as hypothesis, and Corr is established for the regenerated table on every run (corr_generated); the fuel theorems are about the fragment (no if/for/break/continue at any depth) on the Pratt side — outside it the fuel of the model is checked by the correspondence only (a shortage would show as `err` in the model column against a tree in the impl column). Outside the fragment of the Pratt theorem (specification silent, model = implementation by correspondence only): if/else, for lowering, break/continue, ++/-- or a prefix-only operator directly followed by a tighter operator, the undotted symbol `.`. Outside lex_spacing: labels and slices written with a colon, string/char literals inside blocks (the lexer-level theorem LegalFrom has them), comments in gaps.",
+    technique="Lean 4 proof (Pratt loop = stratified grammar by induction on the token list under a table/grammar correspondence discharged by decide; termination measures for both fuel-indexed parsers, so the theorems hold with the concrete fuel the driver uses; lexer model reads every legal spacing as the token sequence, induction over the token list; parser model on the token queue, induction over the source tree; table facts by decide) + model/implementation correspondence through the real lexer, parser and expander",
     design_ref="DESIGN.md §7 C06",
 )
 
@@ -208,7 +208,7 @@ def run(rep):
     rep.assumptions += [
         "Model/Pratt.lean is hand-written; tied to zygo/pratt.go (+ the lexer and parser in front of it) by the `expand` correspondence only",
         "Model/Lexer.lean and Model/Parser.lean (C13/C12) are hand-written; lex_spacing and infix_text_tokens are theorems about them; they are tied to lexer.go/parser.go by the `lex`/`parse` channels and here by `expand ltoks`/`ltree` (impl vs model on every spacing generated, legal or not; impl vs spec on the legal ones)",
-        "the unbounded Pratt theorems are fuel-free ('returns … with enough fuel'); that fuelFor suffices is checked by the bounded theorem and the correspondence, not proved",
+        "fuel: inside the fragment fuelFor is proved to suffice for both executable functions (fuelFor_suffices, stratified_fuelFor_suffices; expandBlock = parseBlock with the driver's fuel); outside the fragment (if/for/break/continue) the model's fuel is checked by the correspondence only",
         "labels and slice bounds written with a colon, string/char literals and comments inside blocks are outside Spec/Spacing (covered by the `tree`/`ltree` correspondence only)",
         "extract/ex_infixtable.go reads InitInfixOps and LeftBindingPower syntactically; its table is compared with the live env.infixOps on every run (op `expand ops`)",
         "if/else, go-style for, break/continue, and ++/-- or a prefix-only operator directly followed by a tighter operator are outside pratt_iff_stratified (the specification is silent; model = implementation by correspondence only)",
